@@ -18,6 +18,7 @@ func init() {
 			`R01.2 whole-file op detection: isFullFileOp returns true only under equal old/new size, BlockSpan == ComputeNumBlocks(new size) and Type == BLOCK_RANGE; ` +
 			`R01.3 per-file framing on the writer side (WritePatch, rediff.Optimize): every file's series is opened by a SyncHeader and closed by a HEY_YOU_DID_IT SyncOp on every path, with a BsdiffHeader before a bsdiff series; ` +
 			`R01.4 every SyncOp/SyncHeader kind the writers emit has a case on the reader side; R01.5 NewFreshBowl prepares the output folder (dirs, symlinks, truncation) before it can succeed; R13.3 codec pairing (every compression setting). ` +
+			`R02.8 (shared) whole-file copies between opened files truncate their destination. ` +
 			`NOT decided: the rolling search, range replay arithmetic, that the ops tile the file, tree equality.`,
 		Run: runC01,
 	})
@@ -186,6 +187,7 @@ func runC01(c *core.Ctx) {
 	c.Rule("R01.3", "per-file framing, writer side")
 	c.Rule("R01.4", "op-kind agreement writer/reader")
 	c.Rule("R01.5", "fresh bowl preparation")
+	ruleCopiesTruncate(c)
 	c.Rule("R13.3", "codec pairing")
 	ruleMatchAcceptance(c, "R01.1")
 
